@@ -842,7 +842,8 @@ impl OldeExportedSub {
             }
             out.params_by_ty[param_ty].push((param_index, param.clone()));
 
-            let param_def_id = param.ident.as_ref().map(|ident| ctx.resolutions.expect_def(ident));
+            // (the parameters of a declaration without a body are never resolved; such a function is rejected later)
+            let param_def_id = param.ident.as_ref().and_then(|ident| ctx.resolutions.try_get_def(ident));
             out.params_in_sig.push((param_def_id, param_ty, param.span));
         }
         Ok(out)
